@@ -360,7 +360,13 @@ def main():
         if crash:
             rpath = os.path.join(VERIF, "replays", a.id, "crash.json")
             os.makedirs(os.path.dirname(rpath), exist_ok=True)
-            json.dump(dict(property=a.id, signature="crash", case="", tier=tier, detail=errors[0][-2500:]), open(rpath, "w"), indent=1)
+            # the harness prints "CASE: <id>" from AddressSanitizer's error callback: keep it for the replay
+            case = ""
+            for lf in sorted(glob.glob(os.path.join(outdir, "shard_*.log"))):
+                m = re.search(r"^CASE: (.*)$", open(lf, errors="replace").read(), re.M)
+                if m and m.group(1).strip(): case = m.group(1).strip(); break
+            json.dump(dict(property=a.id, signature="crash", case=case, tier=tier, detail=errors[0][-2500:]), open(rpath, "w"), indent=1)
+            print("  crash (sanitizer report or fatal signal inside the library) case=%s" % (case or "?"))
             print("VIOLATION property=%s replay=%s" % (a.id, rpath))
             return 1
         return 3
